@@ -933,7 +933,7 @@ impl Disk {
         self.write_entry(loc, &entry)?;
         return Ok(());
     }
-    fn glob_node(&mut self,pattern: &str,dir_block: u16,case_sensitive: bool) -> Result<Vec<String>,DYNERR> {
+    fn glob_node(&mut self,pattern: &str,dir_block: u16,case_sensitive: bool,visits: &mut usize) -> Result<Vec<String>,DYNERR> {
         // this blindly searches everywhere, we could be more efficient by truncating based on the pattern
         let mut files = Vec::new();
         let glob = match case_sensitive {
@@ -942,6 +942,13 @@ impl Disk {
         };
         if self.curr_path.len() > MAX_DIRECTORY_DEPTH {
             error!("directory nesting not plausible, aborting");
+            return Err(Box::new(Error::EndOfData));
+        }
+        // every directory has a key block of its own: a walk that enters more directories than
+        // the volume has blocks is going round a damaged directory graph
+        *visits += 1;
+        if *visits > self.total_blocks {
+            error!("directory count not plausible, aborting");
             return Err(Box::new(Error::EndOfData));
         }
         let mut curr = dir_block;
@@ -969,7 +976,7 @@ impl Disk {
                     if entry.storage_type()==StorageType::SubDirEntry {
                         trace!("descend into directory {}",key);
                         self.curr_path.push(key + "/");
-                        files.append(&mut self.glob_node(pattern,entry.get_ptr(),case_sensitive)?);
+                        files.append(&mut self.glob_node(pattern,entry.get_ptr(),case_sensitive,visits)?);
                     }
                 }
             }
@@ -979,9 +986,15 @@ impl Disk {
         Ok(files)
     }
     /// Output ProDOS directory as a JSON object, calls itself recursively
-    fn tree_node(&mut self,dir_block: u16,include_meta: bool,depth: usize) -> Result<json::JsonValue,DYNERR> {
+    fn tree_node(&mut self,dir_block: u16,include_meta: bool,depth: usize,visits: &mut usize) -> Result<json::JsonValue,DYNERR> {
         if depth > MAX_DIRECTORY_DEPTH {
             error!("directory nesting not plausible, aborting");
+            return Err(Box::new(Error::EndOfData));
+        }
+        // see glob_node
+        *visits += 1;
+        if *visits > self.total_blocks {
+            error!("directory count not plausible, aborting");
             return Err(Box::new(Error::EndOfData));
         }
         let mut files = json::JsonValue::new_object();
@@ -1001,7 +1014,7 @@ impl Disk {
                     files[&key] = json::JsonValue::new_object();
                     if entry.storage_type()==StorageType::SubDirEntry {
                         trace!("descend into directory {}",key);
-                        files[&key]["files"] = self.tree_node(entry.get_ptr(),include_meta,depth+1)?;
+                        files[&key]["files"] = self.tree_node(entry.get_ptr(),include_meta,depth+1,visits)?;
                     }
                     if include_meta {
                         files[&key]["meta"] = entry.meta_to_json();
@@ -1098,10 +1111,11 @@ impl super::DiskFS for Disk {
         let dir_block = self.find_dir_key_block("/")?;
         let vol_path = ["/",&vhdr.name(),"/"].concat();
         self.curr_path = vec![vol_path.clone()];
+        let mut visits = 0;
         if pattern.starts_with("/") {
-            self.glob_node(pattern, dir_block, case_sensitive)
+            self.glob_node(pattern, dir_block, case_sensitive, &mut visits)
         } else {
-            self.glob_node(&(vol_path + pattern), dir_block, case_sensitive)
+            self.glob_node(&(vol_path + pattern), dir_block, case_sensitive, &mut visits)
         }
     }
     fn tree(&mut self,include_meta: bool,indent: Option<u16>) -> Result<String,DYNERR> {
@@ -1109,7 +1123,8 @@ impl super::DiskFS for Disk {
         let dir_block = self.find_dir_key_block("/")?;
         let mut tree = json::JsonValue::new_object();
         tree["file_system"] = json::JsonValue::String(FS_NAME.to_string());
-        tree["files"] = self.tree_node(dir_block,include_meta,0)?;
+        let mut visits = 0;
+        tree["files"] = self.tree_node(dir_block,include_meta,0,&mut visits)?;
         tree["label"] = json::JsonValue::new_object();
         tree["label"]["name"] = json::JsonValue::String(vhdr.name());
         if let Some(spaces) = indent {
